@@ -828,9 +828,12 @@ class Context:
                 if isinstance(value, JSArray):
                     for i in range(len(value._elements)):
                         revived = revive(value, str(i))
-                        # (the reviver may have shortened the array meanwhile)
+                        # (the reviver may have shortened the array meanwhile: a
+                        # value for the first missing index is added again)
                         if i < len(value._elements):
                             value._elements[i] = revived
+                        elif i == len(value._elements) and revived is not UNDEFINED:
+                            value._elements.append(revived)
                 elif isinstance(value, JSObject):
                     for key in value.keys():
                         revived = revive(value, key)
